@@ -30,25 +30,25 @@ PENDING = {
 CHECKS = {
  "C13": dict(
    category="fault_enumeration",
-   text="For each sampled value (about 55 value types incl. derive-generated codecs and raw Encoder call sequences) the sink-refuses-at-byte-c fault is enumerated at EVERY capacity 0..=len+1 for every shipped sink kind (&mut [u8], Cursor<&mut [u8]>, Cursor<[u8;N]>, Cursor<Box<[u8]>>, Vec<u8>, Writer<io::Write> with short writes, EINTR and a full-disk model), inside canary-guarded buffers, against the unbounded reference sink; sequences of 2-4 values are additionally driven through ONE Encoder and continued past failures (each later value must succeed iff it fits the room left, and fail with a write error otherwise); Vec sinks are also presized/recycled; a few items per run are 64-200 KiB; plus raw write_all histories against a bounded-buffer model. Exhaustive in the fault point, sampled in the value.",
+   text="For each sampled value sequence (1-4 values, occasionally 260-420, of ~90 types incl. derive-generated codecs, raw Encoder call sequences, non-idempotent / re-entrant / error-annotating / self-failing Encode impls, 64-200 KiB strings) the sink-refuses-at-byte-c fault is enumerated at EVERY capacity 0..=len+1 (selected capacities incl. every internal write boundary +-1 for long encodings) for every shipped sink kind (&mut [u8], Cursor<&mut [u8]>, Cursor<[u8;N]>, Cursor<Box<[u8]>>, Vec<u8> incl. presized, Writer<io::Write> with short writes, EINTR storms, three full-device flavours and non-retryable device errors), inside canary-guarded buffers, against the unbounded reference sink; sequences are also driven through ONE Encoder and continued past failures (bounded-buffer model over the encoder's recorded writes), through the packet-filling pattern (writer_mut swap + retry) and through the io adapter past a device error; to_vec is compared after a failed to_vec; raw write_all histories (all of <= 3 calls for cap <= 6, random up to 12 calls) run on every cursor kind, on moved array cursors, on boxed cursors whose buffer is exchanged, and on the io adapter; an endless value must be stopped by every bounded sink; >4 GiB are streamed through one io adapter. Exhaustive in the fault point, sampled in the value.",
    note="Reference bytes are the library's own Vec<u8> encoding (C13 is about sinks, not RFC correctness). No unsafe in the code under test, so an overrun can only be a panic or a canary hit. Values are sampled, not enumerated.",
    technique="deterministic simulation: exhaustive enumeration of the sink-full fault point per seeded value, scripted io::Write stub (short writes, EINTR, ENOSPC), canary oracle",
    ref="§3 C13"),
  "C14": dict(
    category="exploration",
-   text="Blocking Writer -> byte stream -> Reader run under a scripted io::Write / io::Read: every short-read/short-write split, EINTR placement, truncation offset, poison frame, hostile length prefix and max_len knob is a scripted lane step; single-fault sweeps (every cut offset, every chunk size, EINTR before every call, all 2^(n-1) compositions of short streams) give a seed-independent floor, the seeded swarm search explores the interactions. Oracle: single-copy frame log + sequential stream parser + counting allocator.",
+   text="Blocking Writer -> byte stream -> Reader run under a scripted io::Write / io::Read: every short-read/short-write split, EINTR placement (incl. storms replayed over long histories), truncation offset, poison frame, hostile length prefix, zero-length frame, accept-zero sink and max_len knob (incl. mid-run changes, exactly the default limit, 'no limit') is a scripted lane step or knob; sources with an all-or-nothing read_exact override, scribbling of unfilled buffer space and vectored I/O are part of the environment; run shapes cover 1-8 frames, 17-48 and 257-600 frame histories with size spikes, 65 700 frames, big frames (64-200 KiB, also delivered in uniform small pieces), a >16 MiB frame, identical consecutive frames and roomy/garbage recycled buffers. Single-fault sweeps (every cut offset, every chunk size, EINTR before every call, each fatal kind before every call, all 2^(n-1) compositions of a short stream) give a seed-independent floor; the seeded swarm search explores the interactions. Oracle: single-copy frame log + sequential stream parser + counting allocator armed around library calls (every new allocation is judged against the limit in force, also after InvalidLen).",
    note="Needs the fix: commit e713753 in /repo (Reader reserved by Vec's amortised growth and could hold a buffer of nearly 2 x max_len; see known_findings.json). The allocation clause is literal: frame-buffer capacity <= max(max_len, caller-provided capacity). After the first InvalidLen / UnexpectedEof / fatal error the reader phase of a run ends. Payload codec is the library's own.",
    technique="deterministic simulation with fault injection: seeded search over scripted short reads/writes, EINTR, truncation, poison frames, hostile prefixes; single-fault sweeps; frame-log reference model",
    ref="§3 C14"),
  "C15": dict(
    category="exploration",
-   text="AsyncReader::read runs under a hand-written single-task executor and a scripted AsyncRead that own every poll outcome (deliver k bytes / Pending / transient error / EOF) and every caller decision (keep polling / drop the future and re-issue read). Sweeps place a cancellation at every Pending position, each error kind before every byte, every cut offset, every chunk size and every pair of cancellations on small fixed streams; a seeded swarm search covers the interactions (1-8 frames, 14 payload families incl. borrowed types, garbage initial buffers, max_len at the frame size). Oracle: frame log, exactly-once error reporting, truncation, no-early-value and bounded progress once faults stop.",
+   text="AsyncReader::read runs under a hand-written single-task executor and a scripted AsyncRead that own every poll outcome (deliver k bytes / Pending / one of ten transient error kinds / EOF) and every caller decision (keep polling / drop the future and re-issue read, incl. on every Pending once the script ends). Sweeps place a cancellation at every Pending position, each error kind before every byte, every cut offset, every chunk size and every pair of cancellations on small fixed streams; all lanes of depth 7 (thorough: 9) over a six-letter alphabet are enumerated; a seeded swarm search covers the interactions (1-600 frames with spikes and fault storms, 65 700 frames, 18 payload families incl. borrowed, zero-length, tag-55799 and sequence-reading types, big frames in uniform small pieces, garbage/roomy initial buffers, max_len knobs incl. mid-frame, into_parts/with_buffer round trips, reader_mut touches) and a two-task pipe world with honest wakers (lost wake-ups are deadlocks). Oracle: frame log, exactly-once error reporting, truncation, no-early-value and bounded progress once faults stop.",
    note="Sampling, not proof. The executor is single-task (the API is &mut self, so there is no concurrent use to schedule). Payload codec is the library's own. Wake-up correctness of the underlying AsyncRead is the stub's, not the library's.",
    technique="deterministic simulation: scripted AsyncRead + own executor, seeded search over poll/cancel schedules and fault sequences, single/double-fault sweeps, frame-log reference model",
    ref="§3 C15"),
  "C16": dict(
    category="exploration",
-   text="AsyncWriter::write/sync run under the same executor and a scripted AsyncWrite (accept k of n / Pending / transient error / accept 0). The caller follows exactly the licensed protocol (a pending write may be dropped, then sync is driven to completion, itself droppable). After EVERY executor step the sink must equal committed-log ++ prefix-of-in-flight-frame; completed writes report the payload length; idle sync makes zero sink calls; write-zero and transient errors surface once and sync resumes; failing/oversize values add no byte. Sweeps: every accept size, cancel at every position, cancel of the sync at every position, Zero/each error before every byte, max_len around the frame size; seeded swarm beyond.",
+   text="AsyncWriter::write/sync/flush run under the same executor and a scripted AsyncWrite (accept k of n / Pending / ten transient error kinds / accept 0; scripted poll_flush outcomes; vectored writes). The caller follows exactly the licensed protocol (a pending write may be dropped, then sync is driven to completion, itself droppable; flush, writer_mut and set_max_len may be interleaved). After EVERY executor step the sink must equal committed-log ++ prefix-of-in-flight-frame; completed writes report the payload length; idle sync offers nothing; write-zero and transient errors surface once and sync resumes; failing/oversize values add no byte. Sweeps: every accept size, cancel at every position, cancel of the sync at every position, Zero/each error before every byte, max_len around the frame size and at the default limit, enumerated lanes of depth 7 (9); seeded swarm beyond (1-600 items with fault storms, 65 700 items, identical consecutive values, zero-length and non-idempotent encodings, 64-200 KiB frames in uniform small pieces or page-scale pieces, a >16 MiB frame, roomy/garbage buffers) and the two-task pipe world.",
    note="Sampling, not proof. Callers that start a new write without syncing after a cancellation are outside the property and not generated. Payload codec is the library's own.",
    technique="deterministic simulation: scripted AsyncWrite + own executor, seeded search over accept/Pending/error/zero outcomes and cancel-then-sync schedules, prefix-of-log invariant after every step",
    ref="§3 C16"),
